@@ -235,6 +235,9 @@ def main(argv=None):
     for full, why in errors:
         print(f"CHECKER-ERROR {full}: {why}")
 
+    extra_cov = {}
+    if prop == "C06":
+        extra_cov = assert_coverage(ledger)
     wall = time.time() - t0
     ev = {
         "property_id": prop,
@@ -256,13 +259,15 @@ def main(argv=None):
             "known_findings_reproduced": [k[0].get("obligation") for k in known_hits],
             "undecided": [u[0] for u in undecided],
             "samples": samples,
+            **extra_cov,
         },
         "assumptions": assumptions_for(prop),
         "wall_s": round(wall, 2),
         "violations": len(vio_lines),
     }
-    with open(os.path.join(ROOT, "evidence", f"{prop}.json"), "w") as f:
-        json.dump(ev, f, indent=1, default=str)
+    if not os.environ.get("PYVC_NO_EVIDENCE"):  # (set only by bin/seed_matrix.sh, which runs on scratch copies)
+        with open(os.path.join(ROOT, "evidence", f"{prop}.json"), "w") as f:
+            json.dump(ev, f, indent=1, default=str)
 
     if a.update_ledger:
         for n in names:
@@ -278,6 +283,31 @@ def main(argv=None):
     if undecided:
         return 2
     return 0
+
+
+def assert_coverage(ledger):
+    """C06 class 1: which assert statements of the in-scope code are obligations of some unit (per the ledger)"""
+    import ast
+
+    from contracts.frames import in_scope_functions
+    from pyvc.repo import Repo
+
+    repo = Repo()
+    covered = set()
+    for unit_name, sites in ledger.items():
+        for site, st in sites.items():
+            if "/assert#" in site and st == "discharged":
+                covered.add(site)
+    total, unc = 0, []
+    for f in in_scope_functions(repo):
+        k = 0
+        for n in ast.walk(f.node):
+            if isinstance(n, ast.Assert):
+                total += 1
+                if f"{f.qualname}/assert#{k}" not in covered:
+                    unc.append(f"{f.qualname}/assert#{k}: {ast.unparse(n.test)[:60]}")
+                k += 1
+    return {"assert_statements_in_scope": total, "assert_statements_discharged_in_some_unit": total - len(unc), "assert_statements_NOT_covered (assumed, not proved)": unc}
 
 
 def assumptions_for(prop):
